@@ -191,7 +191,8 @@ UIDS = [('ta',), ('zz', 'ta'), ('ta', 'zz'), ('zz', 'ta', 'yy')]
             bounds='two launched tasks (named ta, bystander tb); cancel request '
                    'naming ta alone or together with uids unknown to this '
                    'executor (before / after / around it) racing with the '
-                   'watcher; exit code 0 / 3; <= B pre-emptions; '
+                   'watcher; exit code 0 / 3; <= B pre-emptions (the second within '
+                   '6 steps of the first); '
                    'processes exit before the k-th poll() overall (k=1..4) or '
                    'only when killed; the run is repeated without the request',
             stubs=['see C07'])
@@ -200,6 +201,9 @@ def h_exec_cancel(sw1, sw2, ebp, named_first, code, req, B=2):
     if B < 2 and sw2: return
     if sw2 and sw2 < sw1: return
     if B < 2 and req > 1 and sw1 > 20: return      # quick: keep it small
+    # thorough: second pre-emption within 6 steps, then only the plain and the
+    # "unknown uid first" request forms
+    if sw2 and (sw2 - sw1 > 6 or req > 1): return
     sw  = c07._switches(sw1, sw2, 44)
     ebp, code, req = conc(ebp, 0, 4), [0, 3][conc(code, 0, 1)], conc(req, 0, 3)
     ex1, env1, ta = _exec_run(sw, ebp, code, True,  named_first, UIDS[req])
